@@ -14,7 +14,7 @@ Local Open Scope Z_scope.
 Definition is_gap (c : byte) : bool := byte_eqb c "-"%byte.
 
 (* ---- codon locator ------------------------------------------------------------------------------------------- *)
-(* cane.py:211-221: 'start' -> 'AUG|ATG', 'stop' -> 'UAG|UAA|UGA|TAG|TAA|TGA'; with gap='-' every letter that is followed
+(* cane.py:216-228: 'start' -> 'AUG|ATG', 'stop' -> 'UAG|UAA|UGA|TAG|TAA|TGA'; since 7e33c72 the pattern is tokenised into units (a character class is one unit, any other character is its own unit); for these alternations of letters every unit is one character, '|' is no letter: with gap='-' every letter that is followed
    by a letter gets '[-]*' appended: 'A[-]*U[-]*G|A[-]*T[-]*G'. A word is kept as its letters; [mw] matches it at the
    head of [s], skipping gaps between (not before, not after) its letters, and returns n + number of columns consumed. *)
 Definition START_WORDS : list str := [bs "AUG"%bs; bs "ATG"%bs].
